@@ -411,6 +411,10 @@ func (p *proxyConn) writeErrorResponse(req *http.Request, err error) error {
 	if res == nil {
 		res = p.errorResponse(req, err)
 		challenge = res.Header.Values("Proxy-Authenticate")
+	} else {
+		// The upstream proxy rejected the transport's own CONNECT request,
+		// the response answers the request of our client.
+		res.Request = req
 	}
 	if err := p.modifyResponse(res); err != nil {
 		log.Error(req.Context(), "error modifying error response", "error", err)
